@@ -452,6 +452,26 @@ func cmdFreeze(args []string) {
 		}
 		b, _ := json.MarshalIndent(doc, "", " ")
 		fmt.Println(string(b))
+	case "tables":
+		// ZUC S-boxes: frozen from the tree after validating that each is a permutation of
+		// 0..255 with the corner values of the ZUC specification (S0: 3E 72 … 60, S1: 55 C2 … F2).
+		out := map[string][]uint64{}
+		for _, t := range []struct{ key, name string; first, second, last uint64 }{{"zuc.S0", "sbox0", 0x3E, 0x72, 0x60}, {"zuc.S1", "sbox1", 0x55, 0xC2, 0xF2}} {
+			v, _, ok := constTable(w, "security/zuc", t.name)
+			seen := map[uint64]bool{}
+			for _, x := range v {
+				seen[x] = true
+			}
+			if !ok || len(v) != 256 || len(seen) != 256 || v[0] != t.first || v[1] != t.second || v[255] != t.last {
+				fmt.Fprintln(os.Stderr, "table", t.name, "fails validation; not frozen")
+				os.Exit(2)
+			}
+			out[t.key] = v
+		}
+		b, _ := json.MarshalIndent(map[string]any{
+			"provenance": "ZUC specification v1.6 section 3.4.1 tables S0 and S1; frozen from security/zuc at the pinned commit after validating bijectivity and the corner entries, cross-checked by the published EEA3/EIA3 test vectors in the repository's tests",
+			"tables":     out}, "", " ")
+		fmt.Println(string(b))
 	case "fixture-diff":
 		cs := ExtractCodecs(w)
 		fx, err := readFixtures()
